@@ -57,6 +57,7 @@ func C13(ctx *core.Ctx) {
 	c13HTTPErrorIdentity(ctx, r)
 	c13PositiveTimeout(ctx, r)
 	c13OneBudget(ctx, r)
+	c13StableKey(ctx, r)
 	ctx.Rule("C13.R7", "a reply cannot overtake its registration: Register dominates the transmission (otherwise a fast reply is dropped and the call reports TIMED_OUT although the peer answered)", 2)
 	ctx.Rule("C13.R4", "no registration is left behind (deferred Unregister of the same context on every path after Register)", 3)
 	ctx.Assume("http.Client.Do returns, and reads of the response body fail, once the request context is done")
@@ -126,19 +127,26 @@ func C13(ctx *core.Ctx) {
 					// R3: the timeout case returns TIMED_OUT
 					body := SelectCaseBlock(sel, tIdx)
 					ok := false
+					other := ""
 					if body != nil {
 						for ret, vs := range ReturnedValues(f) {
 							if ret.Block() == body || body.Dominates(ret.Block()) {
+								this := false
 								for _, v := range vs {
 									if k, isEx := ExceptionKind(v, "thrift.NewTTransportException"); isEx && k == timedOut {
-										ok = true
+										ok, this = true, true
 									}
+								}
+								if !this && !nilErrorReturn(ret) {
+									other = r.IPos(ret)
 								}
 							}
 						}
 					}
 					ctx.Check(ok, "C13.R3", fname+" › timeout case result"+within(f, fn), r.IPos(in),
 						"returns NewTTransportException(TIMED_OUT)", "the timeout edge does not report TIMED_OUT")
+					ctx.Check(other == "", "C13.R3", fname+" › every error leaving the timeout case is TIMED_OUT"+within(f, fn), r.IPos(in),
+						"no other error return below the timeout case", "once the timeout has fired the call can still return another error (at "+other+"): depending on the state of the connection at that instant the caller sees e.g. NOT_OPEN instead of TIMED_OUT for a peer that never answered")
 					return
 				}
 				c, ok := ssax.AsCall(in)
